@@ -406,7 +406,7 @@ def real_row(a, b):
 
 # --------------------------------------------------------------------------- main
 def run(ctx):
-    from problog.logic import Term, Not
+    from problog.logic import Term, Not, Var
     ctx.rule = ("a case = one ordered pair of terms (model correspondence + pairwise laws) or one triple of the bounded "
                 "universe (transitivity through the real equality matrix); non-trivial = the two terms are not the same spec")
     ctx.proof_phase(MODULE, THEOREMS, refutations=REFUTATIONS)
@@ -547,6 +547,51 @@ def run(ctx):
                     ctx.count("pair extended (oracle only)")
                     for what, sig in laws_pair(V[x], V[y], O[x], O[y]):
                         report(what, {"terms": [V[x], V[y]]}, sig)
+
+    # ------------------------------------------------------------------ histories: a term renamed AFTER it was hashed
+    # (`Term.functor` has a public setter, used by program.py for negated heads and clausedb.py for scoped terms; the
+    # term reached by hash -> rename is a term like any other and must obey "== implies equal hashes")
+    hist = [s for s in U0 if type(s) in (list, tuple) and s and s[0] == "T" and type(s[1]) is str]
+    if not ctx.replay_in:
+        hrng = ctx.sub_rng("rename-histories")
+        for _ in range(ctx.budget(300, 5000)):
+            s = nonvar(gen_spec(hrng, hrng.choice([1, 2])))
+            if type(s) in (list, tuple) and s[0] == "T" and type(s[1]) is str:
+                hist.append(s)
+    for s in hist:
+        for newf in ("g", "_scope_" + s[1], s[1]):
+            ctx.case("rename:%r->%s" % (s, newf))
+            ctx.count("rename history (hash, set functor, compare with a fresh term)")
+            try:
+                a = build(s)
+                fresh = build(("T", newf, s[2]))
+                if not (a.functor == s[1] and fresh.functor == newf):
+                    continue      # constructor normalised the functor: not a plain rename
+                hash(a), a.signature, a.is_ground(), str(a)
+                a.functor = newf
+                bad = []
+                v = Var(str(fresh))
+                if bool(v == a) != bool(v == fresh) or bool(a == v) != bool(fresh == v):
+                    bad.append("a Var named like the fresh term is == exactly one of two == terms (stale printed form)")
+                if not (a == fresh and fresh == a):
+                    bad.append("renamed term is not == the freshly built one")
+                elif hash(a) != hash(fresh):
+                    bad.append("renamed term == fresh term but the hashes differ")
+                if a.signature != fresh.signature:
+                    bad.append("signature of the renamed term is stale (%s vs %s)" % (a.signature, fresh.signature))
+                wa, wf = Term("w", a, a), Term("w", fresh, fresh)
+                if wa == wf and hash(wa) != hash(wf):
+                    bad.append("compounds over the renamed / fresh term are == but hash differently")
+                if {fresh: 1}.get(a) != 1 and a == fresh:
+                    bad.append("dict lookup with the renamed term misses the equal fresh key")
+            except Exception as e:
+                if ctx.implementation_exception(e) if hasattr(ctx, "implementation_exception") else False:
+                    continue
+                raise
+            for b in bad[:1]:
+                report("%s hashed, then .functor = %r: %s" % (pp(s), newf, b),
+                       {"terms": [s, ("T", newf, s[2])], "history": ["build", "hash", "set functor %s" % newf, "compare with fresh"]},
+                       {"law": "hash", "root": "rename-history", "impl": "Term.functor.setter"})
 
     if first_diff:
         ctx.disagree("TermEq model vs problog.logic", "%s: %s" % first_diff)
